@@ -320,22 +320,34 @@ CLASSES = {"default_repr_of_constraint_chain": default_repr_of_constraint_chain}
 # ---------------------------------------------------------------------------------------------
 
 def configs_for(ctx, locs):
-    """Reference + matrix.  quick: 6 configurations chosen to pairwise-cover seeds x cwds x locales x modes;
-    thorough (or widened): the full matrix."""
+    """The matrix.  quick: 6 configurations chosen to pairwise-cover seeds x cwds x locales x modes;
+    quick with a broken tie / changed fingerprint: 24 (every seed x cwd x mode, locales alternating);
+    thorough: the full matrix seeds x cwds x locales x modes."""
     full = [{"seed": s, "cwd": c, "locale": l, "mode": m, "home": (i + j) % 2}
             for i, s in enumerate(SEEDS) for j, c in enumerate(CWDS) for l in locs for m in MODES]
     for f in full:
         if f["mode"] == "fresh":
-            f["batch"] = 25
-    if ctx.thorough or ctx.widen > 1:
+            f["batch"] = 50
+    if ctx.thorough:
+        import random
+        random.Random(606).shuffle(full)       # a diverse first wave; the order is fixed
         return full
-    pickd = [{"seed": "1", "cwd": "root", "locale": "C", "mode": "long", "home": 1},
-             {"seed": "4242", "cwd": "decoy", "locale": locs[-1], "mode": "gather", "home": 0},
-             {"seed": "random", "cwd": "empty", "locale": "C", "mode": "fresh", "batch": 10, "home": 1},
-             {"seed": "random", "cwd": "decoy", "locale": "C.UTF-8", "mode": "long", "home": 0},
-             {"seed": "1", "cwd": "empty", "locale": locs[-1], "mode": "gather", "home": 1},
-             {"seed": "4242", "cwd": "root", "locale": "C.UTF-8", "mode": "fresh", "batch": 10, "home": 0}]
-    return pickd
+    if ctx.widen > 1:
+        sub, k = [], 0
+        for i, s in enumerate(SEEDS):
+            for j, c in enumerate(CWDS):
+                for m in MODES:
+                    k += 1
+                    sub.append({"seed": s, "cwd": c, "locale": locs[k % len(locs)], "mode": m, "home": (i + j) % 2, "batch": 25})
+        # modes differ most: run one of each first so that a failure is found in the first wave
+        sub.sort(key=lambda c: (SEEDS.index(c["seed"]) + CWDS.index(c["cwd"])) % 4)
+        return sub
+    return [{"seed": "1", "cwd": "root", "locale": "C", "mode": "long", "home": 1},
+            {"seed": "4242", "cwd": "decoy", "locale": locs[-1], "mode": "gather", "home": 0},
+            {"seed": "random", "cwd": "empty", "locale": "C", "mode": "fresh", "batch": 10, "home": 1},
+            {"seed": "random", "cwd": "decoy", "locale": "C.UTF-8", "mode": "long", "home": 0},
+            {"seed": "1", "cwd": "empty", "locale": locs[-1], "mode": "gather", "home": 1},
+            {"seed": "4242", "cwd": "root", "locale": "C.UTF-8", "mode": "fresh", "batch": 10, "home": 0}]
 
 
 def cfg_name(c):
@@ -384,9 +396,17 @@ def run(ctx: vlib.Ctx):
 
 def _run(ctx, drv, lab, ts_keys):
     import random
+    import time
+    t0 = time.time()
+    phases = ctx.extra.setdefault("phase_seconds", {})
+
+    def lap(name):
+        nonlocal t0
+        phases[name] = round(time.time() - t0, 1)
+        t0 = time.time()
     locs = locales()
     ctx.extra["locales"] = locs
-    n = ctx.budget(200, 2000)
+    n = (2400 if ctx.widen > 1 else 2000) if ctx.thorough else (800 if ctx.widen > 1 else 200)
     resources = []
     for p in sorted((vlib.SRC / "octave_mcp").rglob("*.oct.md")):
         if p.stat().st_size < 7000:
@@ -416,6 +436,7 @@ def _run(ctx, drv, lab, ts_keys):
         elif not in_class:
             ctx.notes.append(f"witness of {f['id']} is no longer inside its class predicate")
 
+    lap("known-findings")
     # ---- reference run: a fresh process for every call ---------------------------------------------------
     ref, _ = execute(calls, ref_cfg, lab, 0)
     ref_view = {}
@@ -445,6 +466,7 @@ def _run(ctx, drv, lab, ts_keys):
                 ctx.failures.append({"case": strip_call(c), "why": "the envelope contains a memory address (default object repr) — it cannot be the same in another process",
                                      "why_class": "address-leak", "observed": ADDR_RE.findall(ref[c["id"]][0]["out"])[:3]})
 
+    lap("reference")
     # ---- the matrix ------------------------------------------------------------------------------------------
     cfgs = configs_for(ctx, locs)
     ctx.extra["configurations"] = [cfg_name(c) for c in cfgs]
@@ -454,33 +476,21 @@ def _run(ctx, drv, lab, ts_keys):
         i, cfg = i_cfg
         flags = ("--snap",) if cfg["mode"] != "fresh" else ()
         return cfg, execute(calls, cfg, lab, f"{ctx.seed}-{i}", flags)[0]
-    with ThreadPoolExecutor(max(2, vlib.NCPU // 2)) as ex:
-        results = list(ex.map(one_cfg, list(enumerate(cfgs))))
-    for cfg, out in results:
-        name = cfg_name(cfg)
-        for c in calls:
-            reps = out.get(c["id"])
-            if not reps:
-                raise vlib.Infra(f"no reply for call {c['id']} in {name}")
-            paths = kf_paths[c["id"]]
-            for k, rep in enumerate(reps):
-                case = {"call": c["id"], "cfg": name, "pass": k}
-                ctx.case(case, nontrivial='"E_INPUT"' not in ref[c["id"]][0]["out"])
-                got = view(rep, ts_keys, f36_mask(paths) if paths else None)
-                if paths:
-                    raw_equal = view(rep, ts_keys) == view(ref[c["id"]][0], ts_keys)
-                    if not raw_equal:
-                        ctx.known_hits["F36"] = ctx.known_hits.get("F36", 0) + 1
-                if got != ref_view[c["id"]]:
-                    ctx.failures.append({
-                        "case": strip_call(c), "why_class": f"differs:{c['tool']}:{cfg['mode']}",
-                        "why": f"masked envelope differs between the reference (fresh process, seed=0, cwd=repo, locale=C.UTF-8) and {name}"
-                               + (f" (pass {k + 1} of the long-lived process)" if cfg["mode"] == "long" else ""),
-                        "configuration": cfg, "reference": ref_view[c["id"]][:3000], "observed": got[:3000],
-                        "first_difference": first_diff(ref_view[c["id"]], got)})
-                for ch in rep.get("changed") or []:
-                    state_changes.setdefault((ch["file"], ch["owner"], ch["name"]), []).append((c["id"], name))
-        ctx.count("cfg-mode:" + cfg["mode"])
+    # waves: once a wave has produced a failing input there is nothing more to learn from further configurations
+    wave = 6 if not (ctx.thorough or ctx.widen > 1) else 12
+    todo = list(enumerate(cfgs))
+    ran, n0 = 0, len(ctx.failures)
+    while todo and len(ctx.failures) == n0:
+        batch, todo = todo[:wave], todo[wave:]
+        with ThreadPoolExecutor(max(2, vlib.NCPU // 2)) as ex:
+            results = list(ex.map(one_cfg, batch))
+        ran += len(batch)
+        for cfg, out in results:
+            compare_cfg(ctx, cfg, out, calls, ref, ref_view, kf_paths, ts_keys, state_changes)
+    ctx.extra["configurations_run"] = ran
+    if todo:
+        ctx.notes.append(f"matrix stopped after {ran} of {len(cfgs)} configurations: a failing input had been found")
+    lap("matrix")
     # ---- correspondence 1: observed state changes must be listed (and benign) in the summary -----------------------
     keys = sorted(state_changes)
     for key, rep in zip(keys, drv.batch([{"op": "state_change", "file": k[0], "owner": k[1], "name": k[2]} for k in keys])):
@@ -512,10 +522,38 @@ def _run(ctx, drv, lab, ts_keys):
                                      "why": "masked envelope differs between the reference and the instrumented long-lived run (seed=random, cwd=decoy, locale=C)",
                                      "configuration": icfg, "reference": ref_view[c["id"]][:3000],
                                      "observed": view(rep, ts_keys, f36_mask(paths) if paths else None)[:3000]})
+    lap("instrumented")
     ctx.extra["calls"] = len(calls)
     ctx.extra["calls_in_F36_class"] = sum(1 for v in kf_paths.values() if v)
     # classify failures against the open findings' classes (the F36 normaliser above already confines what may differ)
     ctx.failures = dedupe_failures(ctx.failures)
+
+
+def compare_cfg(ctx, cfg, out, calls, ref, ref_view, kf_paths, ts_keys, state_changes):
+    name = cfg_name(cfg)
+    for c in calls:
+        reps = out.get(c["id"])
+        if not reps:
+            raise vlib.Infra(f"no reply for call {c['id']} in {name}")
+        paths = kf_paths[c["id"]]
+        for k, rep in enumerate(reps):
+            case = {"call": c["id"], "cfg": name, "pass": k}
+            ctx.case(case, nontrivial='"E_INPUT"' not in ref[c["id"]][0]["out"])
+            got = view(rep, ts_keys, f36_mask(paths) if paths else None)
+            if paths:
+                raw_equal = view(rep, ts_keys) == view(ref[c["id"]][0], ts_keys)
+                if not raw_equal:
+                    ctx.known_hits["F36"] = ctx.known_hits.get("F36", 0) + 1
+            if got != ref_view[c["id"]]:
+                ctx.failures.append({
+                    "case": strip_call(c), "why_class": f"differs:{c['tool']}:{cfg['mode']}",
+                    "why": f"masked envelope differs between the reference (fresh process, seed=0, cwd=repo, locale=C.UTF-8) and {name}"
+                           + (f" (pass {k + 1} of the long-lived process)" if cfg["mode"] == "long" else ""),
+                    "configuration": cfg, "reference": ref_view[c["id"]][:3000], "observed": got[:3000],
+                    "first_difference": first_diff(ref_view[c["id"]], got)})
+            for ch in rep.get("changed") or []:
+                state_changes.setdefault((ch["file"], ch["owner"], ch["name"]), []).append((c["id"], name))
+    ctx.count("cfg-mode:" + cfg["mode"])
 
 
 def first_diff(a, b):
